@@ -38,9 +38,24 @@ def gen_sysworld(rng, small=False):
     dims = [{"letter": "t", "name": "Time", "items": t, "dtype": "int"}]
     for letter in rng.sample("abce", rng.randint(1, 2 if small else 3)):
         n = rng.randint(1, 3)
-        kind = rng.choice(["str", "int"])
+        kind = rng.weighted([("str", 4), ("int", 4), ("float", 1)])
         items = [f"{letter}{j}x" for j in range(n)] if kind == "str" else [100 * (ord(letter) - 96) + j for j in range(n)]
+        if kind == "float":
+            # e.g. a 'share' or 'size class' dimension; whole numbers are written without a decimal point in the files
+            items = [[0.5, 1.0, 2.0], [0.25, 3.0, 7.5], [10.0, 0.1, 4.0]][(ord(letter) + n) % 3][:n]
+        if kind == "str":
+            flavour = rng.weighted([("plain", 5), ("numeric_looking", 3), ("awkward", 1)])
+            if flavour == "numeric_looking":
+                # a str-typed dimension whose file holds number-like cells next to text
+                items = items[:1] + [str(1000 * (ord(letter) - 96) + 50 * j) for j in range(1, n)]
+                if rng.chance(0.3):
+                    items = items[::-1]
+            elif flavour == "awkward":
+                # tokens that pandas' CSV type / NA inference rewrites unless told not to
+                items = rng.sample(["NA", "01", "1e3", "nan", "None", "true", "N/A", "007"], n)
         dims.append({"letter": letter, "name": DIMNAMES[letter], "items": items, "dtype": kind})
+        if kind == "str" and flavour == "awkward":
+            dims[-1]["awkward"] = True
     letters = [d["letter"] for d in dims]
     # ---- processes
     npr = rng.randint(1, 3 if small else 5)
@@ -77,7 +92,8 @@ def gen_sysworld(rng, small=False):
     # ---- parameters
     params = []
     for k in range(rng.randint(0, 2 if small else 4)):
-        pdims = rng.subset(letters, 1, len(letters))
+        # parameter tables are not given awkward labels: the parameter readers rely on pandas' inference by design (C11/C12 territory)
+        pdims = rng.subset([d["letter"] for d in dims if not d.get("awkward")], 1, len(letters))
         params.append({"name": PARAM_NAMES[k], "dims": pdims, "vseed": rng.randint(0, 10 ** 6),
                        "layout": {"wide": (rng.randint(0, len(pdims) - 1) if rng.chance(0.3) else None),
                                   "header": rng.choice(["names", "letters"]), "shuffle": rng.randint(0, 10 ** 6)}})
@@ -85,7 +101,7 @@ def gen_sysworld(rng, small=False):
              "dimfiles": {d["letter"]: {"orient": rng.choice(["row", "col"]), "header": rng.chance(0.5)} for d in dims},
              "sheets": rng.chance(0.6), "one_workbook": rng.chance(0.5),
              "dict_order": rng.randint(0, 10 ** 6)}
-    return {"dims": dims, "processes": procs, "flows": flows, "stocks": stocks, "params": params, "naming": naming, "build": build}
+    return {"alias": rng.randint(0, 1), "dims": dims, "processes": procs, "flows": flows, "stocks": stocks, "params": params, "naming": naming, "build": build}
 
 
 class _P:
@@ -113,14 +129,16 @@ def _dim(world, letter):
     return [d for d in world["dims"] if d["letter"] == letter][0]
 
 
-DT = {"int": int, "str": str}
+DT = {"int": int, "str": str, "float": float}
 
 
 # ============================================================================= definitions
 def make_definition(world, faults=()):
     """returns MFADefinition (construction itself may raise: that is one of the places where refusal may happen)"""
     fl = {f["kind"]: f for f in faults}
-    dim_defs = [DimensionDefinition(name=d["name"], letter=d["letter"], dtype=DT[d["dtype"]]) for d in world["dims"]]
+    alias = world.get("alias", 0)
+    dim_defs = [DimensionDefinition(name=d["name"], dtype=DT[d["dtype"]], **{("dim_letter" if (alias + n) % 2 else "letter"): d["letter"]})
+                for n, d in enumerate(world["dims"])]
     procs = list(world["processes"])
     if "sysenv_not_first" in fl and len(procs) > 1:
         procs = [procs[1], procs[0]] + procs[2:]
@@ -132,7 +150,10 @@ def make_definition(world, faults=()):
             dl = dl + ("q",)
         if "flow_undefined_process" in fl and k == fl["flow_undefined_process"]["k"] % len(world["flows"]):
             to = "no such process"
-        kw = {"from_process": frm, "to_process": to, "dim_letters": dl}
+        if (alias + k) % 2:
+            kw = {"from_process_name": frm, "to_process_name": to, "dim_letters": dl}
+        else:
+            kw = {"from_process": frm, "to_process": to, "dim_letters": dl}
         if f["override"] is not None:
             kw["name_override"] = f["override"]
         flows.append(FlowDefinition(**kw))
@@ -140,8 +161,9 @@ def make_definition(world, faults=()):
     for k, s in enumerate(world["stocks"]):
         dl = tuple(s["dims"])
         kw = {"name": s["name"], "dim_letters": dl, "subclass": CLS[s["cls"]], "time_letter": "t"}
+        pkey = "process_name" if (alias + k) % 2 else "process"
         if s["process"] is not None:
-            kw["process"] = world["processes"][s["process"]]
+            kw[pkey] = world["processes"][s["process"]]
         if s["lt"] is not None:
             kw["lifetime_model_class"] = LT[s["lt"]]
         if s["cls"] == "stockdriven":
@@ -150,7 +172,7 @@ def make_definition(world, faults=()):
         if hit("stock_undefined_dim"):
             kw["dim_letters"] = dl + ("q",)
         if hit("stock_undefined_process"):
-            kw["process"] = "no such process"
+            kw[pkey] = "no such process"
         if hit("stock_missing_lifetime") and s["cls"] != "simple":
             kw.pop("lifetime_model_class", None)
         if hit("stock_unused_lifetime") and s["cls"] == "simple":
@@ -228,7 +250,8 @@ def _param_frame(world, p):
 
 
 def _dim_frame(d, form):
-    cells = ([d["name"]] if form["header"] else []) + list(d["items"])
+    items = [int(x) if (d["dtype"] == "float" and float(x).is_integer()) else x for x in d["items"]]
+    cells = ([d["name"]] if form["header"] else []) + items
     if form["orient"] == "row":
         return pd.DataFrame([cells])
     return pd.DataFrame([[c] for c in cells])
@@ -328,10 +351,12 @@ class GenericSystem(MFASystem):
         pass
 
 
-def build_system(world, tmp, faults=(), cls=GenericSystem, applied=None):
-    """build through the path named in the world; any exception propagates to the caller"""
+def build_system(world, tmp, faults=(), cls=GenericSystem, applied=None, definition=None):
+    """build through the path named in the world; any exception propagates to the caller.
+    `definition`: reuse an existing MFADefinition object (second build from the same definitions)"""
     path = world["build"]["path"]
-    definition = make_definition(world, faults)
+    if definition is None:
+        definition = make_definition(world, faults)
     if path == "direct":
         dims = DimensionSet(dim_list=[Dimension(name=d["name"], letter=d["letter"], items=list(d["items"]), dtype=DT[d["dtype"]])
                                       for d in world["dims"]])
